@@ -475,7 +475,7 @@ def gen_module(ctx: Ctx, avail_modules: List[Unit], with_submodule=False):
     if rng.random() < 0.3:
         items = []
         for _ in range(rng.randint(1, 4)):
-            items.append((ctx.name("e"), rng.choice([None, None, str(rng.randint(0, 20))])))
+            items.append((ctx.name("e"), rng.choice([None, None, str(rng.randint(0, 20)), str(-rng.randint(1, 20))])))
         m.enums.append(Enum(items, ctx.doc()))
     # namelist over module variables
     cand = [v.name for v in m.vars if not v.parameter and v.ts.base not in ("type", "class", "procedure") and "pointer" not in v.attrs
